@@ -48,6 +48,10 @@ reading the body in the handler raises (`none`: the body is fine / not read) -/
 structure HReq where
   req : Req
   bodyErr : Option String
+  direct : Bool := false
+    -- the exception is raised by the framework code itself and not through `BaseRequest._raise`
+    -- (`int(environ['CONTENT_LENGTH'])` of a Content-Length that is not a number: a plain
+    -- `ValueError`): no `errors_map` lookup, the handler crashes
   ctxKeeps : Bool := false
     -- the request error is raised while a built-in exception with a live traceback is being handled
     -- (`except ValueError:` around `int()` / `json.loads`): the shared error's `__context__` then
@@ -149,7 +153,7 @@ def responseOf (res : Result) : Response :=
 def resolve (shared : List SharedErr) (hr : HReq) : Req × Option SharedErr :=
   match hr.bodyErr, hr.req.route with
   | some cls, .found h =>
-    match mapped shared cls with
+    match (if hr.direct then none else mapped shared cls) with
     | some e => ({ hr.req with route := .found { h with res := .raisesResp (.resp true e.resp (.text e.body)) } }, some e)
     | none => ({ hr.req with route := .found { h with res := .raises } }, none)
   | _, _ => (hr.req, none)
